@@ -22,6 +22,7 @@ INITS = [
     ('cmd', r'\t[b]{a}'),
     ('cmd', r'\t{a}{a}'),
     ('cmd', r'\t[b]{a}{c}'),
+    ('cmd', r'\t{}[b]'),
     ('env', r'\begin{e}{a}x\end{e}'),
     ('item', r'\item[b]x'),
 ]
@@ -73,7 +74,7 @@ class System:
             ops += [('insert', i, 'str', '[b]'), ('insert', i, 'obj', '{a}')]
         ops += [('insert', 0, 'str', '{{c}}'), ('insert', n, 'obj', '{{c}}')]
         for how in ('str', 'obj'):
-            ops += [('remove', how, g) for g in POOL]
+            ops += [('remove', how, g) for g in POOL + ['{}']]
         ops += [('remove_elem', i) for i in range(n)]
         ops += [('pop',)] + [('pop', i) for i in range(-n - 1, n + 2)]
         ops += [('reverse',), ('clear',)]
